@@ -44,7 +44,7 @@ INT_COLS = {'trajectories.txt': [0], 'records_camera.txt': [0], 'records_depth.t
 
 
 def gen_case(rng):
-    opts = kgen.Opts(p_part=rng.choice([0.5, 0.9]), id_pool=4, fancy_ids=True, max_rows=5, image_pool=5, partial_poses=True)
+    opts = kgen.Opts(p_part=rng.choice([0.5, 0.9]), id_pool=4, fancy_ids=True, max_rows=5, image_pool=5, partial_poses=True, odd_paths=True)
     return {'d': kgen.gen_dataset(rng, opts), 'layout': rng.randrange(10 ** 9)}
 
 
